@@ -448,9 +448,13 @@ def _c(t: T, d, ctx: Ctx, cons: Dict[str, Any]):
     if isinstance(t, (Lit, EnumT)):
         pairs = [(v, v) for v in t.values] if isinstance(t, Lit) else [(v, VEnum(t.name, n)) for n, v in t.members]
         out = _lit(pairs, d, ctx)
-        # constraints given to a literal / enum position bear on the datum (by its own JSON class)
-        dcls = json_class(d)
-        msgs = check_cons(cons, d, dcls, ctx) if cons and dcls in (int, float, str) else []
+        # constraints given to a literal / enum position bear on the JSON value of the literal obtained (the datum itself
+        # in strict mode; what the documented table made of it under coercion), by its own JSON class
+        jv = out
+        if isinstance(out, VEnum):
+            jv = dict((n, v) for n, v in t.members)[out.member]
+        dcls = json_class(jv)
+        msgs = check_cons(cons, jv, dcls, ctx) if cons and dcls in (int, float, str) else []
         if msgs:
             raise Rejected(E(msgs))
         return out
